@@ -91,8 +91,6 @@ def ber_part(run, model, mods, cases, rng, tier):
         for c in cs:
             tree = m["trees"][c["tn"]]
             der = bytes.fromhex(c["der"])
-            if len(der) > 3000 and tier == "quick" and rng.chance(2, 3):
-                continue
             try:
                 plan = U.Plan(tree, der)
                 plan.annotate_defs(m, c["tn"])
@@ -100,25 +98,40 @@ def ber_part(run, model, mods, cases, rng, tier):
                 run.violation("harness:plan", {"what": "cannot parse the model's DER along the type: %s" % e, "model_type": c["ts"], "der": c["der"]}, no_input=True)
                 continue
             vs = ber_variants(plan, rng, tier)
-            if len(der) > 3000:
-                vs = vs[:6]
+            # the reference decoder of the model is quadratic in the number of TLVs: few variants of long values
+            k = len(plan.nodes)
+            cap = (4 if k > 120 else 8 if k > 40 else 10**6) if tier == "quick" else (8 if k > 400 else 16 if k > 120 else 10**6)
+            if len(vs) > cap:
+                vs = vs[:3] + [vs[3 + rng.below(len(vs) - 3)] for _ in range(cap - 3)]
+            if k > 3000:
+                vs = vs[:3]
+            run.count("ber_values_%s" % ("k<=6" if k <= 6 else "k<=40" if k <= 40 else "k<=120" if k <= 120 else "k>120"))
             for (lab, b, ch, mixed, seg, segtl) in vs:
                 lines.append("dec %s ber %s" % (c["tn"], b.hex()))
-                meta.append((c, lab, b, ch, mixed, seg, segtl))
+                meta.append((c, lab, b, ch, mixed, seg, segtl, k <= 3000))
+        import time
+        t1 = time.time()
         out = run_mod(run, m, lines, "C03-ber")
+        t2 = time.time()
         mlines = []
-        for (c, lab, b, ch, mixed, seg, segtl) in meta:
-            mlines.append("c03dec %s %s" % (c["ts"], b.hex()))
+        for (c, lab, b, ch, mixed, seg, segtl, usem) in meta:
+            if usem:
+                mlines.append("c03dec %s %s" % (c["ts"], b.hex()))
             if ch is not None:
                 mlines.append("bervar %s %s %s" % (c["ts"], c["vs"], ch))
         rcm, mout, merr = run_lines(model, mlines, timeout=1200)
+        log("C03: ber %s: %d lines, C %.1fs, model %.1fs, max k %d" % (m["name"], len(lines), t2 - t1, time.time() - t2, max([0] + [len(x[2]) for x in meta])))
         if rcm != 0 or len(mout) != len(mlines):
             run.violation("model:driver", {"what": "model driver failed", "rc": rcm, "stderr": merr[-1500:]}, no_input=True)
             continue
         mi = 0
-        for (c, lab, b, ch, mixed, seg, segtl), l, o in zip(meta, lines, out):
-            mo = mout[mi]
-            mi += 1
+        for (c, lab, b, ch, mixed, seg, segtl, usem), l, o in zip(meta, lines, out):
+            mo = None
+            if usem:
+                mo = mout[mi]
+                mi += 1
+            else:
+                run.count("ber_reference_decoder_skipped(>3000 TLVs)")
             mv = None
             if ch is not None:
                 mv = mout[mi]
@@ -136,9 +149,9 @@ def ber_part(run, model, mods, cases, rng, tier):
             if mv is not None and mv != b.hex():
                 run.violation("correspondence:BerVariants.ber_var", dict(replay, what="the spec's variant encoder and the independent re-encoder differ for the same choices", ber_var=mv), no_input=True)
             # reference decoder: defined on everything but segmented strings
-            mf = mo.split()
+            mf = mo.split() if mo is not None else []
             m_ok = (len(mf) >= 3 and mf[0] == "OK" and int(mf[1]) == len(b) and mf[2] == c["der"])
-            if not seg and not m_ok:
+            if not seg and not m_ok and usem:
                 run.violation("model:Der.ber_dec", dict(replay, what="the reference decoder does not accept a variant of the family (contradicts ber_complete)"), no_input=True)
             c_ok = o.startswith(exp)      # (the constraint verdict ck is C08's business)
             if c_ok:
@@ -177,7 +190,12 @@ def uper_part(run, model, mods, cases, rng, tier):
             mstd, mfaith = mout[2 * i], mout[2 * i + 1]
             replay = {"module": m["text"], "type": c["tn"], "model_type": c["ts"], "value": c["vs"], "command_line": l, "c": o,
                       "expected": exp, "model_std_decoder": mstd, "model_of_c_decoder": mfaith, "c_own_encoding": c["uper"]}
-            if mstd != "OK %d %s" % (n, c["vs"]):
+            mok = (mstd == "OK %d %s" % (n, c["vs"]))
+            if not mok and "t" in c["ts"] and mstd.startswith("OK %d " % n):
+                # X.691 writes SET OF elements in its own order: same value up to that order?
+                _, d2, _ = run_lines(model, ["der %s %s" % (c["ts"], mstd.split()[2])], timeout=300)
+                mok = (d2 == [c["der"]])
+            if not mok:
                 run.violation("model:Uper.uper_dec(std)", dict(replay, what="the X.691 reference decoder does not return the value on the X.691 encoding"), no_input=True)
             if o.startswith(exp):
                 continue
@@ -308,10 +326,17 @@ def main(tier):
         if not m.get("exe"):
             run.violation("build:module", {"what": "a valid generated module was rejected or its code does not compile", "module": m["text"],
                                            "asn1c_out": m.get("asn1c_out", "")[-1200:], "build_log": m.get("build_log", "")[-1200:]})
+    import time
+    t0 = time.time()
+    log("C03: corpus built %.1fs" % (t0 - T0))
     ber_part(run, model, mods, cases, rng, tier)
+    log("C03: ber %.1fs" % (time.time() - t0)); t0 = time.time()
     uper_part(run, model, mods, cases, rng, tier)
+    log("C03: uper %.1fs" % (time.time() - t0)); t0 = time.time()
     oer_part(run, model, mods, cases, rng, tier)
+    log("C03: oer %.1fs" % (time.time() - t0)); t0 = time.time()
     xer_part(run, mods, cases, rng, tier)
+    log("C03: xer %.1fs" % (time.time() - t0))
     tb = ["Coq 8.16.1 kernel", "axioms under Print Assumptions: " + (", ".join(sorted(axioms)) or "none (Closed under the global context)"),
           "extraction: ExtrOcamlBasic only; OCaml 4.13.1", "lib/c03_util.py (independent variant generators), lib/modgen.py, harness/moddrv.c, gcc + ASan/UBSan"]
     return run.finish("proof", (nthm, ndis), trusted_base=tb,
